@@ -288,6 +288,11 @@ func normD(d *DNode, kind string, changed *bool) *DNode {
 	}
 	name := bare(d.Label)
 	switch kind {
+	case "all-parens":
+		if name == "ParenExpr" && len(d.Kids) == 1 {
+			*changed = true
+			return withField(fieldOf(d.Label), d.Kids[0])
+		}
 	case "nested":
 		if name == "ParenExpr" && len(d.Kids) == 1 && bare(d.Kids[0].Label) == "ParenExpr" {
 			*changed = true
